@@ -124,6 +124,8 @@ def check_sign(case):
         f.add(f"range/r-s-not-in-[1,n-1]/{ztag}", repr(res)[:120])
         return cls, f
     r, s = rs_
+    if not stub.calls:
+        cls.append("rng-not-consulted")  # e.g. deterministic nonces: the scripted-draw classes cannot be produced
     if any(c[2] == 0 for c in stub.calls):
         cls.append("nt:draw-zero")
     if len(stub.calls) > 1:
@@ -378,8 +380,9 @@ def sigapi_cases(draw):
 def targets(tier):
     return [
         Target("sign-secp", check_sign, strategy=lambda tier: sign_cases(), budget={"quick": 700, "thorough": 12000},
-               required=["nt:digest>=n", "nt:digest==0", "nt:key-boundary-or-leading-zeros", "nt:draw-zero", "nt:s-retry", "nt:s-negated",
-                         "nt:r-short", "nt:s-short", "nt:r-pad", "nt:s-short-pad", "nt:pair-key", "nt:pair-message"]),
+               required=["nt:digest>=n", "nt:digest==0", "nt:key-boundary-or-leading-zeros", "nt:draw-zero|rng-not-consulted", "nt:s-retry|rng-not-consulted",
+                         "nt:s-negated|rng-not-consulted", "nt:r-short|rng-not-consulted", "nt:s-short|rng-not-consulted", "nt:r-pad|rng-not-consulted",
+                         "nt:s-short-pad|rng-not-consulted", "nt:pair-key", "nt:pair-message"]),
         Target("sig-api", check_sigapi, strategy=lambda tier: sigapi_cases(), budget={"quick": 500, "thorough": 10000},
                required=["nt:preimage", "nt:flag-anyonecanpay", "nt:s-short-pad", "nt:r-short", "nt:solved-key"]),
         Target("der-codec", check_der, enumerate_=enum_der, required=["nt:s-short-pad", "nt:r-short-pad", "nt:r-pad"]),
